@@ -357,6 +357,14 @@ func genStoreCase(r *rand.Rand, id int) *Case {
 			acctExpr[a] = eVar(n)
 		}
 	}
+	if r.Intn(12) == 0 {
+		// a lookup that fails: the account has no metadata at all / lacks the key
+		acc := pick(r, []string{"nometa", "m"})
+		newVar("string", J{"k": "call", "name": "meta", "args": jl(eAcct(acc), eStr("absent"))}, J{"t": "missing"})
+		if acc == "m" && c.Meta["m"] == nil {
+			c.Meta["m"] = map[string]string{"other": "x"}
+		}
+	}
 	// origins that pre-fetch a subset of the leaves (the skeleton that exposes a forgotten cache entry)
 	var balVars []string
 	for _, a := range leaves {
@@ -393,8 +401,14 @@ func genStoreCase(r *rand.Rand, id int) *Case {
 	for _, a := range leaves {
 		srcs = append(srcs, mkLeaf(a))
 	}
-	if r.Intn(5) == 0 {
+	switch r.Intn(8) {
+	case 0:
 		srcs = append(srcs, J{"k": "acct", "e": eAcct("world")})
+	case 1:
+		srcs = append(srcs, J{"k": "ovd", "e": eAcct("world"), "b": eMon(eAsset(S), eNum(5))})
+	}
+	if r.Intn(8) == 0 {
+		newVar("monetary", J{"k": "call", "name": "balance", "args": jl(eAcct("world"), eAsset(S))}, J{"t": "none"})
 	}
 	var src J = J{"k": "seq", "s": srcs}
 	if len(srcs) == 1 && r.Intn(2) == 0 {
@@ -426,6 +440,9 @@ func genStoreCase(r *rand.Rand, id int) *Case {
 		} else {
 			st["all"] = false
 		}
+	}
+	if r.Intn(10) == 0 {
+		c.Stmts = append(c.Stmts, J{"k": "save", "all": false, "sent": eMon(eAsset(S), eNum(3)), "e": eAcct("world")})
 	}
 	c.Stmts = append(c.Stmts, J{"k": "send", "all": all, "sent": sent, "src": src, "dst": J{"k": "acct", "e": eAcct(pick(r, []string{"x", "a", "b"}))}})
 	if r.Intn(3) == 0 {
